@@ -160,6 +160,24 @@ class Rat:
     def is_zero(self):
         return self.n.is_zero()
 
+    def zero_out(self, gen: str):
+        """The term with generator ``gen`` set to 0 (None if the denominator vanishes)."""
+        def z(p):
+            return Poly({m: c for m, c in p.t.items() if all(g != gen for g, _e in m)})
+        d = z(self.d)
+        if d.is_zero():
+            return None
+        return Rat(z(self.n), d)
+
+    def single_generator(self):
+        """Name of the generator if the term is exactly one generator times a non-zero constant, else None."""
+        if not self.d.is_const() or len(self.n.t) != 1:
+            return None
+        (m, c), = self.n.t.items()
+        if len(m) == 1 and m[0][1] == 1 and c != 0:
+            return m[0][0]
+        return None
+
     def is_poly(self):
         return self.d.is_const()
 
